@@ -918,7 +918,7 @@ def shrink_candidates(case):
 
 MANIFEST = {
     "level_text": (
-        "Machine-checked proofs (Coq 8.16, 66 theorems, all closed under the global context). (a) The extracted certificate "
+        "Machine-checked proofs (Coq 8.16, 67 theorems, all closed under the global context). (a) The extracted certificate "
         "checker emd_cert_ok is sound for all sizes and inputs: acceptance of (P, Q, C, penalty, d, F, alpha, beta, gamma) "
         "implies that d is exactly the transportation optimum plus penalty*|sum P - sum Q| of the property text (also against "
         "fractional flows) and that F is a feasible integral flow whose cost reproduces d; the value is unique; zero padding "
@@ -942,7 +942,7 @@ MANIFEST = {
         "unreachable through emd_hat_impl's construction except at the artificial node."),
     "level_note": (
         "Trusted: Coq kernel + vm_compute; extraction (ExtrOcamlBasic only) and the S-expression driver; the Python harness. "
-        "NOT proved (named in Props/C10.v): that the graph reduction is value-preserving (graph_reduction_correct_on); that the run never fails (mcf_no_fail_if_flag_clear); "
+        "NOT proved (named in Props/C10.v): that the graph reduction is value-preserving (graph_reduction_correct_on); that the run never fails (mcf_no_fail_if_flag_clear: the augmentation half is proved, C10_mcf_no_fail_if_flag_clear_partial - a step with a clear flag can only fail in the search; csp_total and deficit_reachable are open); "
         "that the artificial node is never used (the flag is never set: checked per case, 0 of ~150 000 runs). The "
         "end-to-end statement therefore still rests on the certificate computed inside the algorithm-level model and on the "
         "per-case certificate check of the implementation's output. int is modelled by Z; int32 overflow of the answer is "
